@@ -244,9 +244,9 @@ pub struct ExCase {
     pub msg: u32,
 }
 
-fn ex_msg(i: u32) -> Vec<u8> { if i == 0 { b"long loop".to_vec() } else { format!("long loop message {i}").into_bytes() } }
+pub fn ex_msg(i: u32) -> Vec<u8> { if i == 0 { b"long loop".to_vec() } else { format!("long loop message {i}").into_bytes() } }
 
-fn exhausting_key(p: &rf::Params) -> Vec<u8> {
+pub fn exhausting_key(p: &rf::Params) -> Vec<u8> {
     use crate::gen::{Pattern, Seed32, SkSpec};
     gen::build_sk(p, &SkSpec::Fields { rho: Seed32::Uniform(1), key: Seed32::Zero, tr_seed: 5, s1: Pattern::Random(6), s2: Pattern::AllZero, t0: Pattern::RandomExtreme(1), consistent: false }).sk
 }
@@ -310,27 +310,10 @@ fn exhausting_cases() -> Vec<ExCase> {
 /// exactly those. (The search asks the library's internal interface, which takes rnd as an argument; on the unchanged
 /// tree the answer is "rejection loop did not terminate".)
 fn exhausted_loop_cases(tries: u32) -> (Vec<ExCase>, u32) {
-    use rayon::prelude::*;
-    let libr = libs()[0];
-    let p = libr.p();
-    let key = exhausting_key(&p);
     let mut out = Vec::new();
     let mut found = 0;
     for entry in [2u8, 3] {
-        let hits: Vec<u32> = (1..=tries)
-            .into_par_iter()
-            .filter(|i| {
-                let _wd = crate::engine::watch(|| format!("C12/long_loop search: entry {entry} message {i}"));
-                let Ok(Ok(sk)) = guarded(|| libr.sk_from_bytes(&key)) else { return false };
-                let data = gen::prg_bytes(u64::from(entry), "c12-ex", 96);
-                let rnd: [u8; 32] = core::array::from_fn(|k| data[k]);
-                let mode = MODES[(entry - 2) as usize % 4];
-                // through the internal interface (Algorithm 7 on the formatted message with rnd given directly): no
-                // generator is involved, so what an entry point does about its generator cannot hide the exhaustion
-                let m_prime = rf::format_message(mode, &ex_msg(*i), &[1, 2, 3]);
-                matches!(guarded(|| sk.internal_sign(&m_prime, &[], rnd)), Ok(Err(_)))
-            })
-            .collect();
+        let hits = exhausting_messages(entry, tries);
         found += hits.len() as u32;
         for i in hits.into_iter().take(2) {
             for script in EX_SCRIPTS {
@@ -339,6 +322,34 @@ fn exhausted_loop_cases(tries: u32) -> (Vec<ExCase>, u32) {
         }
     }
     (out, found)
+}
+
+/// rnd used by the search below (and by the replays of what it finds)
+pub fn ex_rnd(entry: u8) -> [u8; 32] {
+    let data = gen::prg_bytes(u64::from(entry), "c12-ex", 96);
+    core::array::from_fn(|k| data[k])
+}
+
+/// Numbers i in 1..=tries for which signing `ex_msg(i)` (context [1, 2, 3], rnd `ex_rnd(entry)`) with the hostile
+/// ML-DSA-44 key runs the loop to its limit (also used by C16: an object dropped after such a call).
+pub fn exhausting_messages(entry: u8, tries: u32) -> Vec<u32> {
+    use rayon::prelude::*;
+    let libr = libs()[0];
+    let p = libr.p();
+    let key = exhausting_key(&p);
+    (1..=tries)
+        .into_par_iter()
+        .filter(|i| {
+            let _wd = crate::engine::watch(|| format!("C12/long_loop search: entry {entry} message {i}"));
+            let Ok(Ok(sk)) = guarded(|| libr.sk_from_bytes(&key)) else { return false };
+            let rnd = ex_rnd(entry);
+            let mode = MODES[(entry - 2) as usize % 4];
+            // through the internal interface (Algorithm 7 on the formatted message with rnd given directly): no
+            // generator is involved, so what an entry point does about its generator cannot hide the exhaustion
+            let m_prime = rf::format_message(mode, &ex_msg(*i), &[1, 2, 3]);
+            matches!(guarded(|| sk.internal_sign(&m_prime, &[], rnd)), Ok(Err(_)))
+        })
+        .collect()
 }
 
 /// What the OS-RNG entry points return as their FIRST results in a fresh process (one line per call).
